@@ -1,6 +1,7 @@
 import CobaVerif.Model.C10
 import CobaVerif.Generated.C10Consts
 import CobaVerif.Generated.C10ReprModes
+import CobaVerif.Generated.C10Options
 namespace Coba.C10
 
 theorem distinctB_iff (as : List Val) : distinctB as = true ↔ Distinct as := by
@@ -3535,5 +3536,227 @@ theorem collBranch_injective (m m' : Mode) (h : collBranch m = collBranch m') : 
 
 theorem encodeAt_string_iff (m : Mode) : collBranch m = "str" ↔ m = .string := by cases m <;> simp [collBranch]
 theorem encodeAt_flat_iff (m : Mode) : collBranch m = "flat" ↔ m = .onehot := by cases m <;> simp [collBranch]
+
+/-! ## Phase 6: option handling (constructor calls with arguments left out) -/
+
+theorem option_defaults_match_source' :
+    Coba.Generated.C10.sparsifyInitDefaults = [(sparsifyDefaults .filter).1, (sparsifyDefaults .filter).2] ∧
+    Coba.Generated.C10.envSparseDefaults = [(sparsifyDefaults .env).1, (sparsifyDefaults .env).2] ∧
+    Coba.Generated.C10.densifyInitFlagDefaults = [(densifyFlagDefaults .filter).1, (densifyFlagDefaults .filter).2] ∧
+    Coba.Generated.C10.envDenseFlagDefaults = [(densifyFlagDefaults .env).1, (densifyFlagDefaults .env).2] ∧
+    Coba.Generated.C10.densifyInitN = densifyDefaultN ∧ Coba.Generated.C10.densifyInitMethod = densifyDefaultMethod ∧
+    Coba.Generated.C10.densifyMethodNames = densifyMethodNames ∧
+    Coba.Generated.C10.reprInitDefaults = [optModeName (reprDefaults .filter).1, optModeName (reprDefaults .filter).2] ∧
+    Coba.Generated.C10.envReprDefaults = [optModeName (reprDefaults .env).1, optModeName (reprDefaults .env).2] ∧
+    Coba.Generated.C10.cycleInitAfter = cycleDefaultAfter ∧
+    Coba.Generated.C10.envSparsePasses = ["context", "action"] ∧
+    Coba.Generated.C10.envDensePasses = ["n_feats=n_feats", "method=method", "context=context", "action=action"] ∧
+    Coba.Generated.C10.envReprPasses = ["cat_context", "cat_actions"] := by decide +kernel
+
+theorem method_dispatch_matches_source' (m : String) : Coba.Generated.C10.densifyBranch m = methodBranch m := rfl
+
+theorem methodOfName_lookup_iff' (m : String) (prior : List String) (tbl : List (String × Nat)) :
+    (methodOfName m prior tbl = .lookup prior ↔ m = "lookup") ∧ (m ≠ "lookup" → methodOfName m prior tbl = .hashing tbl) := by
+  unfold methodOfName methodBranch
+  by_cases h : m = "lookup"
+  · subst h; simp
+  · simp [h]
+
+theorem default_ctor_steps' (k : Ctor) (prior : List String) (tbl : List (String × Nat)) :
+    mkSparsify k none none = .sparsify true false ∧
+    mkDensify k none none none none prior tbl = .densify 400 (.lookup prior) true false ∧
+    mkRepr .filter none none = .repr none none ∧
+    [Step.harden, mkRepr .env none none, .wrapSeqs] = expandStep .finalize ∧
+    mkCycle none = .cycle 0 := by
+  cases k <;> refine ⟨rfl, ?_, rfl, rfl, rfl⟩ <;> simp [mkDensify, methodOfName, methodBranch, densifyDefaultMethod, densifyDefaultN, densifyFlagDefaults]
+
+/-- a plan that leaves everything but the context as it is -/
+def keepsNonContext (I : Inter) (p : Plan) : Prop :=
+  p.actions = I.actions ∧ p.action = I.action ∧ p.polR = .keep ∧ p.polF = .keep
+
+inductive KeepsAll : List Inter → List Plan → Prop
+  | nil : KeepsAll [] []
+  | cons {I p is ps} : keepsNonContext I p → KeepsAll is ps → KeepsAll (I :: is) (p :: ps)
+
+theorem applyPlans_keepsNonContext : ∀ (s : List Inter) (ps : List Plan) (s' : List Inter),
+    KeepsAll s ps → applyPlans s ps = .ok s' → s'.map nonContext = s.map nonContext
+  | [], [], s', _, h => by simp [applyPlans] at h; subst h; rfl
+  | I :: is, p :: ps, s', hk, h => by
+    cases hk with
+    | cons h1 h2 =>
+      obtain ⟨ha, hb, hr, hf⟩ := h1
+      simp only [applyPlans, applyPlan, hr, hf, rekeyOpt] at h
+      cases hrec : applyPlans is ps with
+      | error e => simp [hrec] at h
+      | ok js =>
+        simp [hrec] at h
+        subst h
+        have ih := applyPlans_keepsNonContext is ps js h2 hrec
+        simp [nonContext, ha, hb] at ih ⊢
+        exact ih
+  | [], _ :: _, _, hk, _ => by cases hk
+  | _ :: _, [], _, hk, _ => by cases hk
+
+theorem forall₂_map_keeps (f : Inter → Plan) (hf : ∀ I, keepsNonContext I (f I)) : ∀ s : List Inter, KeepsAll s (s.map f)
+  | [] => .nil
+  | I :: is => .cons (hf I) (forall₂_map_keeps f hf is)
+
+theorem sparsify_noaction_context_only' (cfg : Cfg) (c : Bool) (s s' : List Inter)
+    (hrun : runPrim cfg (.sparsify c false) s = .ok s') : s'.map nonContext = s.map nonContext := by
+  simp only [runPrim, plansOf, sparsifyPlans] at hrun
+  refine applyPlans_keepsNonContext s _ s' (forall₂_map_keeps _ ?_ s) hrun
+  intro I
+  simp [keepsNonContext]
+
+theorem densifyRun_noaction_keeps (cfg : Cfg) (m : DMethod) (n : Nat) (c rC fC : Bool) :
+    ∀ (s : List Inter) (st st' : DState) (ps : List Plan),
+    densifyRun cfg m n c false rC fC st s = .ok (ps, st') → KeepsAll s ps
+  | [], st, st', ps, h => by simp [densifyRun] at h; rw [h.1]; exact .nil
+  | I :: rest, st, st', ps, h => by
+    simp only [densifyRun] at h
+    split at h
+    · simp at h
+    · rename_i st1 ctx _
+      cases hrec : densifyRun cfg m n c false rC fC st1 rest with
+      | error e => simp [hrec] at h
+      | ok r =>
+        obtain ⟨ps', stE⟩ := r
+        simp [hrec] at h
+        rw [← h.1]
+        exact .cons (by simp [keepsNonContext]) (densifyRun_noaction_keeps cfg m n c rC fC rest st1 stE ps' hrec)
+
+theorem densify_noaction_context_only' (cfg : Cfg) (n : Nat) (m : DMethod) (c : Bool) (s s' : List Inter)
+    (hrun : runPrim cfg (.densify n m c false) s = .ok s') : s'.map nonContext = s.map nonContext := by
+  simp only [runPrim, plansOf, densifyPlans] at hrun
+  split at hrun
+  · simp at hrun
+  · rename_i ps hps
+    split at hps
+    · simp at hps
+    · rename_i st1 _
+      split at hps
+      · rename_i ps' stE hr
+        simp at hps; subst hps
+        exact applyPlans_keepsNonContext s _ s' (densifyRun_noaction_keeps cfg _ n c _ _ s st1 stE _ hr) hrun
+      · simp at hps
+
+/-- default-constructed `Sparsify()` / `Densify()` (the `action` flag left out), through either constructor, with every choice of the other
+arguments, for every `Cfg` and every stream: only contexts change -/
+theorem default_action_flag_context_only' (cfg : Cfg) (k : Ctor) (c : Option Bool) (n : Option Nat) (m : Option String)
+    (prior : List String) (tbl : List (String × Nat)) (s s' : List Inter) :
+    (runPrim cfg (mkSparsify k c none) s = .ok s' → s'.map nonContext = s.map nonContext) ∧
+    (runPrim cfg (mkDensify k n m c none prior tbl) s = .ok s' → s'.map nonContext = s.map nonContext) := by
+  constructor
+  · intro h
+    have : mkSparsify k c none = .sparsify (c.getD (sparsifyDefaults k).1) false := by cases k <;> rfl
+    rw [this] at h
+    exact sparsify_noaction_context_only' cfg _ s s' h
+  · intro h
+    have : mkDensify k n m c none prior tbl = .densify (n.getD densifyDefaultN) (methodOfName (m.getD densifyDefaultMethod) prior tbl) (c.getD (densifyFlagDefaults k).1) false := by
+      cases k <;> rfl
+    rw [this] at h
+    exact densify_noaction_context_only' cfg _ _ _ s s' h
+
+/-! ## Phase 6: histories of reads of one Densify object -/
+
+theorem runPrimObj_lookup_irrel (cfg : Cfg) (n : Nat) (p q : List String) (c a : Bool) (T : DState) (A : List Inter) :
+    runPrimObj cfg (.densify n (.lookup p) c a) T A = runPrimObj cfg (.densify n (.lookup q) c a) T A := by
+  simp only [runPrimObj]
+
+theorem runObjHistory_lookup_irrel (cfg : Cfg) (n : Nat) (p q : List String) (c a : Bool) : ∀ (hist : List (List Inter)) (T : DState),
+    runObjHistory cfg (.densify n (.lookup p) c a) T hist = runObjHistory cfg (.densify n (.lookup q) c a) T hist
+  | [], T => rfl
+  | A :: rest, T => by
+    simp only [runObjHistory, runPrimObj_lookup_irrel cfg n p q c a T A]
+    cases runPrimObj cfg (.densify n (.lookup q) c a) T A with
+    | error e => rfl
+    | ok r => exact runObjHistory_lookup_irrel cfg n p q c a rest r.2
+
+theorem densify_history_eq_prior' (cfg : Cfg) (n : Nat) (c a : Bool) (B : List Inter) : ∀ (hist : List (List Inter)) (p : List String) (T : DState),
+    primeKeys (.lookup []) (initDState n) p = .ok T →
+    (∃ T', runObjHistory cfg (.densify n (.lookup p) c a) T hist = .ok T') →
+    runObjAfter cfg (.densify n (.lookup p) c a) T hist B = runPrim cfg (.densify n (.lookup (p ++ historyKeys c a hist)) c a) B
+  | [], p, T, hT, _ => by
+    simp only [runObjAfter, runObjHistory, historyKeys, List.append_nil, runPrimObj, runPrim, plansOf, densifyPlans, hT, normMethod]
+    cases densifyRun cfg (.lookup []) n c a (firstCallable (·.rewards) B) (firstCallable (·.feedbacks) B) T B with
+    | error e => rfl
+    | ok rb =>
+      obtain ⟨psB, T2⟩ := rb
+      simp only
+      cases applyPlans B psB <;> rfl
+  | A :: rest, p, T, hT, ⟨T', hH⟩ => by
+    simp only [runObjHistory] at hH
+    cases hA : runPrimObj cfg (.densify n (.lookup p) c a) T A with
+    | error e => simp [hA] at hH
+    | ok r =>
+      obtain ⟨a', T1⟩ := r
+      simp only [hA] at hH
+      have hprime : primeKeys (.lookup []) (initDState n) (p ++ keysAsked c a A) = .ok T1 := by
+        simp only [runPrimObj] at hA
+        cases hda : densifyRun cfg (.lookup []) n c a (firstCallable (·.rewards) A) (firstCallable (·.feedbacks) A) T A with
+        | error e => simp [hda] at hA
+        | ok ra =>
+          obtain ⟨psA, T1'⟩ := ra
+          simp only [hda] at hA
+          cases hap : applyPlans A psA with
+          | error e => simp [hap] at hA
+          | ok a'' =>
+            simp [hap] at hA
+            have hk := densifyRun_state cfg (.lookup []) n c a _ _ A T psA T1' hda
+            rw [primeKeys_append, hT, ← hA.2]; exact hk
+      have ih := densify_history_eq_prior' cfg n c a B rest (p ++ keysAsked c a A) T1 hprime
+        ⟨T', by rw [runObjHistory_lookup_irrel cfg n _ p c a rest T1]; exact hH⟩
+      simp only [historyKeys, ← List.append_assoc]
+      rw [← ih]
+      simp only [runObjAfter, runObjHistory, hA]
+      rw [runObjHistory_lookup_irrel cfg n p (p ++ keysAsked c a A) c a rest T1]
+      cases runObjHistory cfg (.densify n (.lookup (p ++ keysAsked c a A)) c a) T1 rest with
+      | error e => rfl
+      | ok T'' => simp only [runPrimObj_lookup_irrel cfg n p (p ++ keysAsked c a A) c a T'' B]
+
+/-! ## Phase 6 (round i): no state across the interactions of one stream in the re-keying -/
+
+theorem applyPlans_local' : ∀ (s : List Inter) (ps : List Plan) (s' : List Inter), applyPlans s ps = .ok s' →
+    ∀ (k : Nat) (I : Inter), s[k]? = some I → ∃ p J, ps[k]? = some p ∧ s'[k]? = some J ∧ applyPlan I p = .ok J
+  | [], [], _, _, k, I, hk => by simp at hk
+  | [], _ :: _, _, h, _, _, _ => by simp [applyPlans] at h
+  | _ :: _, [], _, h, _, _, _ => by simp [applyPlans] at h
+  | i :: is, p :: ps, s', h, k, I, hk => by
+    simp only [applyPlans] at h
+    cases hj : applyPlan i p with
+    | error e => simp [hj] at h
+    | ok j =>
+      cases hr : applyPlans is ps with
+      | error e => simp [hj, hr] at h
+      | ok js =>
+        simp [hj, hr] at h
+        subst h
+        cases k with
+        | zero => simp at hk; subst hk; exact ⟨p, j, by simp, by simp, hj⟩
+        | succ k =>
+          simp at hk
+          obtain ⟨p', J, h1, h2, h3⟩ := applyPlans_local' is ps js hr k I hk
+          exact ⟨p', J, by simpa using h1, by simpa using h2, h3⟩
+
+/-- no state across the interactions of a stream in the re-keying -/
+theorem rekey_local' (cfg : Cfg) (st : Step) (s s' : List Inter) (h : runPrim cfg st s = .ok s') (k : Nat) (I : Inter) (hk : s[k]? = some I) :
+    ∃ J pR pF, s'[k]? = some J ∧ rekeyOpt pR I.rewards I.actions J.actions = .ok J.rewards ∧
+      rekeyOpt pF I.feedbacks I.actions J.actions = .ok J.feedbacks ∧ J.reward = I.reward ∧ J.probability = I.probability := by
+  simp only [runPrim] at h
+  cases hp : plansOf cfg st s with
+  | error e => simp [hp] at h
+  | ok ps =>
+    simp only [hp] at h
+    obtain ⟨p, J, _, h2, h3⟩ := applyPlans_local' s ps s' h k I hk
+    simp only [applyPlan] at h3
+    cases hR : rekeyOpt p.polR I.rewards I.actions p.actions with
+    | error e => simp [hR] at h3
+    | ok r' =>
+      cases hF : rekeyOpt p.polF I.feedbacks I.actions p.actions with
+      | error e => simp [hR, hF] at h3
+      | ok f' =>
+        simp [hR, hF] at h3
+        subst h3
+        exact ⟨_, p.polR, p.polF, h2, hR, hF, rfl, rfl⟩
 
 end Coba.C10
